@@ -392,6 +392,15 @@ func (c *contentValidator) ValidateRequestAccept(ch *aclrecordproto.AclAccountRe
 	if !acceptIdentity.Equals(record.RequestIdentity) {
 		return ErrIncorrectIdentity
 	}
+	if record.Type != RequestTypeJoin {
+		// only join requests can be accepted: a removal request is served by AccountRemove
+		return ErrNoSuchRequest
+	}
+	if !c.aclState.Permissions(acceptIdentity).NoPermissions() {
+		// the requester was admitted by another route meanwhile: accepting the stale request
+		// must not re-permission an existing member
+		return ErrInsufficientPermissions
+	}
 	if ch.Permissions == aclrecordproto.AclUserPermissions_Owner {
 		return ErrInsufficientPermissions
 	}
